@@ -187,6 +187,16 @@ DEVIATIONS = [
 ]
 
 
+def _live_first():
+    from vf.engine import live_first
+
+    order = live_first("C09", [n for n, _p, _g in DEVIATIONS])
+    DEVIATIONS.sort(key=lambda d: order.index(d[0]))
+
+
+_live_first()
+
+
 def explain(cell: Cell, canonical, got):
     """-> list of deviation names that together account for canonical -> got exactly, or None."""
     lost = canonical - got
